@@ -30,7 +30,10 @@ CONSTANTS NDev,          \* device instances 1..NDev (instance 1 is the one unde
           PacketSizes,   \* set of packet sizes in cells
           NScripts,      \* the first NScripts entries of AllScripts are used as short-write scripts
           MaxFaultAt,    \* faults: none, or the k-th fallible OS call for k in 1..MaxFaultAt, transient or persistent
-          FIXED
+          FIXED,
+          SetRunning,    \* TRUE: storage_set is also called on a running device (acquire_configure during an acquisition)
+          FIX_SET        \* 1: storage_set stops a running device whose new settings were rejected (as camera_set does);
+                         \* 0: as it was - the HAL reports AwaitingConfiguration while the driver keeps its file open
 
 Devs == 1..NDev
 AllScripts == << <<>>, <<"H">>, <<"Z", "H">>, <<"Z", "Z", "Z">>, <<"S1", "Z", "S1">>, <<"H", "H">>, <<"Z", "Z", "S1", "Z">> >>
@@ -49,7 +52,7 @@ VARIABLES dev,      \* [Devs -> struct Raw + HAL handle]
 vars == <<dev, os, gh, used, err, lastAct, hist>>
 
 Lim(d) == IF d = 1 THEN [cyc |-> MaxCycles, app |-> MaxAppends] ELSE [cyc |-> 1, app |-> 1]
-NoDev == [open |-> FALSE, state |-> CLOSED, fid |-> 0, offset |-> 0, isopen |-> FALSE, path |-> 0, cyc |-> 0, napp |-> 0]
+NoDev == [open |-> FALSE, state |-> CLOSED, fid |-> 0, offset |-> 0, isopen |-> FALSE, path |-> 0, rpath |-> 0, cyc |-> 0, napp |-> 0]
 NoGh == [app |-> <<>>, clean |-> FALSE, total |-> 0, fresh |-> FALSE]
 FaultSet == {[at |-> 0, pers |-> FALSE]} \cup {[at |-> k, pers |-> b] : k \in 1..MaxFaultAt, b \in BOOLEAN}
 
@@ -70,7 +73,7 @@ RawStop(m, d, s) ==
 
 \* the C14 clause, evaluated when an acquisition that reported no failure is stopped
 StopCheck(m, d, s) ==
-  IF Ghost /\ gh[d].clean /\ s.path # 0 /\ m.files[s.path] # gh[d].app THEN Bad(m, "FileNotAppended") ELSE m
+  IF Ghost /\ gh[d].clean /\ s.rpath # 0 /\ m.files[s.rpath] # gh[d].app THEN Bad(m, "FileNotAppended") ELSE m
 
 Commit(m, d, s, g, label) ==
   /\ dev' = [dev EXCEPT ![d] = s]
@@ -88,21 +91,26 @@ DoOpen(d) ==
   /\ Commit(Machine(os, <<>>), d, [NoDev EXCEPT !.open = TRUE, !.state = AWAIT], NoGh, Label("open", d, 0, <<>>))
   /\ UNCHANGED used
 
-\* storage_set -> raw_set: file_is_writable(path) (create, close, unlink), copy properties
+\* storage_set -> raw_set: file_is_writable(path) (create, close, unlink), copy properties.
+\* On a running device (SetRunning): accepted settings leave it Running (they apply to the next start; the open file is
+\* the one named at start: rpath); rejected settings take it out of the running state - repaired (FIX_SET = 1) after the
+\* HAL stopped it (raw_stop closes the file), as it was (FIX_SET = 0) with the file still open behind AwaitingConfiguration.
 DoSet(d) ==
-  /\ dev[d].open /\ dev[d].state # RUNNING /\ used < NPaths /\ dev[d].cyc < Lim(d).cyc
+  /\ dev[d].open /\ (dev[d].state # RUNNING \/ SetRunning) /\ used < NPaths /\ dev[d].cyc < Lim(d).cyc
   /\ LET p == used + 1
+         run == dev[d].state = RUNNING
          m == FileIsWritable(Machine(os, <<>>), d, p)
-         s == IF m.ok THEN [dev[d] EXCEPT !.state = ARMED, !.path = p] ELSE [dev[d] EXCEPT !.state = AWAIT] IN
+         r == IF run /\ ~m.ok /\ FIX_SET = 1 THEN RawStop(m, d, dev[d]) ELSE <<m, dev[d]>>
+         s == IF m.ok THEN [dev[d] EXCEPT !.state = IF run THEN RUNNING ELSE ARMED, !.path = p] ELSE [r[2] EXCEPT !.state = AWAIT] IN
      \* paths are fresh per acquisition (file_create never truncates: re-using a path is outside the property)
-     Commit(m, d, s, [gh[d] EXCEPT !.fresh = m.ok], Label("set", d, p, <<>>))
+     Commit(r[1], d, s, [gh[d] EXCEPT !.fresh = m.ok, !.clean = @ /\ (m.ok \/ ~run)], Label("set", d, p, <<>>))
   /\ used' = used + 1
 
 \* storage_start (state must be Armed) -> raw_start: file_create
 DoStart(d) ==
   /\ dev[d].open /\ dev[d].state = ARMED /\ dev[d].cyc < Lim(d).cyc /\ gh[d].fresh
   /\ LET m == FileCreate(Machine(os, <<>>), d, dev[d].path)
-         s0 == [dev[d] EXCEPT !.fid = m.r, !.cyc = @ + 1, !.napp = 0]
+         s0 == [dev[d] EXCEPT !.fid = m.r, !.cyc = @ + 1, !.napp = 0, !.rpath = dev[d].path]
          s == IF m.ok THEN (IF FIXED = 1 THEN [s0 EXCEPT !.state = RUNNING, !.offset = 0, !.isopen = TRUE]
                                           ELSE [s0 EXCEPT !.state = RUNNING])
               ELSE [s0 EXCEPT !.state = AWAIT] IN
@@ -161,10 +169,10 @@ TypeOK ==
   /\ \A d \in Devs : dev[d].state \in {CLOSED, AWAIT, ARMED, RUNNING} /\ dev[d].offset >= 0
   /\ \A f \in FdSet : os.fdt[f] \in Paths \cup {0}
 \* repaired code: a Running device owns exactly the descriptor in its struct, anything else owns nothing
-OwnsItsFile == FIXED = 1 => \A d \in Devs : Owns(os, d) = (IF dev[d].state = RUNNING THEN {dev[d].fid} ELSE {})
+OwnsItsFile == (FIXED = 1 /\ FIX_SET = 1) => \A d \in Devs : Owns(os, d) = (IF dev[d].state = RUNNING THEN {dev[d].fid} ELSE {})
 \* repaired code: while Running and clean the file is exactly what was appended so far and offset is its length
 RunningFile == (FIXED = 1 /\ Ghost) => \A d \in Devs : (dev[d].state = RUNNING /\ gh[d].clean) =>
-                  (os.files[dev[d].path] = gh[d].app /\ dev[d].offset = Len(gh[d].app))
+                  (os.files[dev[d].rpath] = gh[d].app /\ dev[d].offset = Len(gh[d].app))
 
 \* ---- export of every transition with a witness history (VIEW hides hist) -------------------------------------
 EmitEdge == PrintT(<<"EDGE", ToJson([fault |-> os.fault, path |-> hist'])>>)
